@@ -240,7 +240,7 @@ func quote(s string) string {
 
 // ------------------------------------------------------------------ generation
 
-var rootNames = []string{"tmp", "root", "rootx", "a", "tmp/root", "a/b"}
+var rootNames = []string{"tmp", "root", "rootx", "a", "tmp/root", "a/b", "."}
 
 func genCase(t *rapid.T) Case {
 	c := Case{Conv: rapid.SampledFrom(convs).Draw(t, "conv")}
@@ -282,7 +282,9 @@ func genCase(t *rapid.T) Case {
 	// start from the root (or a look-alike), then wander
 	var rootEls []string
 	for _, s := range c.Subs {
-		rootEls = append(rootEls, strings.Split(s, "/")...)
+		if s != "." {
+			rootEls = append(rootEls, strings.Split(s, "/")...)
+		}
 	}
 	mode := rapid.IntRange(0, 5).Draw(t, "candmode")
 	var els []string
@@ -351,7 +353,9 @@ func TestLive(t *testing.T) {
 				rt.Skip("invalid sub")
 			}
 			fsys = sub
-			rootEls = append(rootEls, strings.Split(d, "/")...)
+			if d != "." {
+				rootEls = append(rootEls, strings.Split(d, "/")...)
+			}
 		}
 		o := fsys.(*hos.FS)
 		cand, _ := unquote(c.CandidateQ)
